@@ -533,7 +533,10 @@ class CooperativeTask:
                 self.pause()
 
                 def failLater(failure: Failure) -> None:
-                    self._completeWith(TaskFailed(), failure)
+                    # The task may have been stopped while it was waiting; a
+                    # task completes only once.
+                    if self._completionState is None:
+                        self._completeWith(TaskFailed(), failure)
 
                 result.addCallbacks(lambda result: self.resume(), failLater)
 
@@ -708,7 +711,8 @@ class Cooperator:
         iterators which have been added and forget about them.
         """
         self._stopped = True
-        for taskObj in self._tasks:
+        # Iterate over a copy: _completeWith removes each task from self._tasks.
+        for taskObj in list(self._tasks):
             taskObj._completeWith(SchedulerStopped(), Failure(SchedulerStopped()))
         self._tasks = []
         if self._delayedCall is not None:
